@@ -37,7 +37,7 @@ THEOREMS = [
     "ESV.C10.rejects_break_outside", "ESV.C10.rejects_continue_outside", "ESV.C10.rejects_break_loop_outside",
     "ESV.C10.rejects_switch_ends_empty", "ESV.C10.rejects_two_defaults", "ESV.C10.rejects_stmts_in_message_switch",
     "ESV.C10.rejects_label_in_with", "ESV.C10.rejects_not_on_bit", "ESV.C10.rejects_unknown_macro",
-    "ESV.C10.rejects_too_few_macro_args", "ESV.C10.tooFew_of_lt", "ESV.C10.rejects_recursive_macros",
+    "ESV.C10.rejects_too_few_macro_args", "ESV.C10.rejects_fewer_args_than_params", "ESV.C10.tooFew_of_lt", "ESV.C10.rejects_recursive_macros",
     "ESV.C10.rejects_jump_undefined", "ESV.C10.rejects_jump_undefined_in_macro",
     "ESV.C10.rejects_bad_first_routine_id", "ESV.C10.rejects_fixed_routine_target",
     "ESV.C10.error_kinds_documented", "ESV.C10.world_error_kinds_documented",
@@ -250,6 +250,12 @@ def part_a(run: core.Run, pool: core.Pool, drv_ok: bool, jobs: int, n_invalid: i
                               {"world": w["texts"], "root": w["root"], "lookup": w["lookup"], "missing": w["info"], "impl": o})
                 continue
             run.violation(w["kind"] + "_accepted", f"import world of kind {w['kind']} compiles", {"world": w["texts"], "root": w["root"], "lookup": w["lookup"], "impl": o})
+    tf: Counter = Counter()
+    for c in cases:
+        for i in c["infos"]:
+            if i.get("shape") == "too_few_macro_arguments":
+                tf[f"{i['pattern']}:{i['args']}of{i['params']}:{i['site']}"] += 1
+    stats["a_too_few_argument_cells"] = dict(sorted(tf.items()))
     stats["a_programs"] = len(cases)
     stats["a_invalid"] = sum(1 for c in cases if c["shapes"])
     stats["a_worlds"] = len(worlds)
